@@ -24,7 +24,8 @@ Claimed at proof level, partial.  Machine-checked:
     executable (`Rel.IterOKs`: operands of a chain share an engine, a transfer leads from an iteration engine or
     holds its payload) and has the engine of the input (`processed_trees_wellformed`).
 Not proved (validated by walking every tree the real library returns): `EngineOK` of the nodes INSIDE SQL-engine trees
-(expression support per node), back-tracking of joins, trees processed through a SQL engine.
+(expression support per node), back-tracking of joins with options other than the defaults (`transfer=True`, an explicit
+preferred engine; the default call is `join_with_backtracking_wellformed`), trees processed through a SQL engine.
 -/
 import DafRel.Lemmas.Build
 import DafRel.Lemmas.ConformSound
@@ -32,6 +33,7 @@ import DafRel.Lemmas.JoinCommon
 import DafRel.Lemmas.SqlHistory
 import DafRel.Lemmas.ProcMulti
 import DafRel.Lemmas.Backtrack
+import DafRel.Lemmas.BacktrackJoin
 
 namespace DafRel.Props.C14
 
@@ -267,6 +269,25 @@ theorem apply_with_options_wellformed (σ : Leaves) (st : Store) (fuel : Nat) (o
     (res.get t).WF ∧ ((res.get t).engine = t.engine ∨ (opts.transfer = true ∧ opts.pref = some (res.get t).engine)) :=
   let A := applyOp_sound σ st fuel o t opts res hkt hpk hwf htr hnd h
   ⟨A.wf, A.engine⟩
+
+/-- **A back-tracked join returns a well-formed tree** (`relation.join(fixed)`, default options, target in an
+iteration engine, fixed relation in a database - from the C03 induction `backtrack_pj_sound`): whenever the call
+succeeds the result is well-formed, lives in the target's engine, and its columns are the target's plus the fixed
+relation's. -/
+theorem join_with_backtracking_wellformed (σ : Leaves) (st : Store) (fuel : Nat) (p : PJoin) (t : Rel) (o : Opts)
+    (hpref : o.pref = none) (hbt : o.backtrack = true) (htr : o.transfer = false)
+    (hkt : t.engine.kind = .iter) (hks : p.fixed.engine.kind = .sql)
+    (gF : Good NodeInv.triv σ p.fixed)
+    (hfix0 : p.join.resolved = true → p.join.minCols.subset p.fixed.columns = true)
+    (hwf : t.WF) (htrt : t.Truthful σ) (hpo : t.prefTargetsGood NodeInv.triv σ p.fixed.engine)
+    (hnp : t.spineNoPayload st)
+    (res : Res) (h : applyOp st fuel (.pj p) t o = .ok res) :
+    (res.get t).WF ∧ (res.get t).engine = t.engine ∧
+      (∀ x, x ∈ (res.get t).columns ↔ x ∈ p.fixed.columns ∨ x ∈ t.columns) := by
+  obtain ⟨p', hb, B⟩ := applyOp_pj_backtracked σ st fuel p t o hpref hbt htr hkt hks gF hfix0 hwf htrt hpo hnp res h
+  obtain ⟨f1, _⟩ := pjBeginApply_ok p t none p' _ hfix0 hb
+  refine ⟨B.wf, B.engine, fun x => ?_⟩
+  rw [B.cols x, PJoin.mem_appliedColumns, f1]
 
 theorem processed_trees_wellformed (σ : Leaves) (sq0 : SqlState) (h0 : sq0.payload 0 = none) (t : Rel) (fuel : Nat)
     (matAs : Option String) (s : ProcState) (reg : Nat → Option (List Row)) (hm : t.MultiIter)
